@@ -161,4 +161,4 @@ def run(repo: Repo, rep: Report, tier: str) -> None:
                                   "here, while the sibling branches read the raw node", fn.loc(n))
     if good and not bad:
         rep.ok("R3.8", f"{sp.relpath} nullable type arrays", f"all {good} `isinstance(<node>['type'], list)` tests read the document node", sp.relpath)
-    rep.require(good + bad >= 3, f"R3.8: only {good + bad} type-array nullability tests found in schema_parser (floor 3)")
+    rep.require(good + bad >= 2, f"R3.8: only {good + bad} type-array nullability tests found in schema_parser (floor 2)")
